@@ -32,13 +32,13 @@ class MidiFileOutputDevice (OutputDevice):
         #------------------------------------------------------------------------
         dt = self.time - self.last_event_time
         dt_ticks = int(round(dt * self.midifile.ticks_per_beat))
-        self.miditrack.append(Message('note_on', note=note, velocity=velocity, channel=channel, time=dt_ticks))
+        self.miditrack.append(Message('note_on', note=int(note), velocity=int(velocity), channel=int(channel), time=dt_ticks))
         self.last_event_time = self.time
 
     def note_off(self, note=60, channel=0):
         dt = self.time - self.last_event_time
         dt_ticks = int(round(dt * self.midifile.ticks_per_beat))
-        self.miditrack.append(Message('note_off', note=note, channel=channel, time=dt_ticks))
+        self.miditrack.append(Message('note_off', note=int(note), channel=int(channel), time=dt_ticks))
         self.last_event_time = self.time
 
     def write(self):
